@@ -18,7 +18,7 @@ import (
 // `doltDB.ResolveParent(ctx,cherryCommit,0).ToCommit().GetRootValue(ctx)`.
 func traceExpr(fn *ast.FuncDecl, e ast.Expr, before token.Pos, depth int) string {
 	if depth > 24 {
-		return exprText(e)
+		return vcsopsExprText(e)
 	}
 	switch v := e.(type) {
 	case *ast.Ident:
@@ -37,29 +37,29 @@ func traceExpr(fn *ast.FuncDecl, e ast.Expr, before token.Pos, depth int) string
 	case *ast.BasicLit:
 		return v.Value
 	}
-	return exprText(e)
+	return vcsopsExprText(e)
 }
 
-func exprText(e ast.Expr) string {
+func vcsopsExprText(e ast.Expr) string {
 	switch v := e.(type) {
 	case *ast.Ident:
 		return v.Name
 	case *ast.SelectorExpr:
-		return exprText(v.X) + "." + v.Sel.Name
+		return vcsopsExprText(v.X) + "." + v.Sel.Name
 	case *ast.CallExpr:
 		args := make([]string, len(v.Args))
 		for i, a := range v.Args {
-			args[i] = exprText(a)
+			args[i] = vcsopsExprText(a)
 		}
-		return exprText(v.Fun) + "(" + strings.Join(args, ",") + ")"
+		return vcsopsExprText(v.Fun) + "(" + strings.Join(args, ",") + ")"
 	case *ast.BasicLit:
 		return v.Value
 	case *ast.CompositeLit:
-		return exprText(v.Type) + "{…}"
+		return vcsopsExprText(v.Type) + "{…}"
 	case *ast.UnaryExpr:
-		return v.Op.String() + exprText(v.X)
+		return v.Op.String() + vcsopsExprText(v.X)
 	case *ast.StarExpr:
-		return "*" + exprText(v.X)
+		return "*" + vcsopsExprText(v.X)
 	}
 	return fmt.Sprintf("<%T>", e)
 }
@@ -184,7 +184,7 @@ func init() {
 		if acall == nil || len(acall.Args) < 4 {
 			return fmt.Errorf("applySingleRevert: revertCommit call not found")
 		}
-		c.defString("revertRootArg", exprText(acall.Args[3]))
+		c.defString("revertRootArg", vcsopsExprText(acall.Args[3]))
 
 		// ---- stash pop
 		st, err := c.file("go/libraries/doltcore/sqle/dprocedures/dolt_stash.go")
@@ -201,7 +201,7 @@ func init() {
 		}
 		roles = nil
 		for _, a := range hcall.Args[2:5] {
-			roles = append(roles, exprText(a))
+			roles = append(roles, vcsopsExprText(a))
 		}
 		c.defStringList("stashPopOursTheirsBase", roles)
 		// push: `roots.Staged = roots.Head` before MoveTablesFromHeadToWorking; AddStash stores roots.Staged
@@ -215,7 +215,7 @@ func init() {
 		if add == nil || mv == nil || stage == nil || len(add.Args) < 3 {
 			return fmt.Errorf("doStashPush: unexpected shape")
 		}
-		c.defString("stashStoredRoot", exprText(add.Args[2]))
+		c.defString("stashStoredRoot", vcsopsExprText(add.Args[2]))
 		c.defBool("stashPushOrder", stage.Pos() < add.Pos() && add.Pos() < mv.Pos())
 		// pop restages only meta.TablesToStage
 		popfn := findFunc(st, "", "doStashPop")
@@ -226,7 +226,7 @@ func init() {
 		if sc == nil || len(sc.Args) < 3 {
 			return fmt.Errorf("doStashPop: StageTables call not found")
 		}
-		c.defString("stashPopRestages", exprText(sc.Args[2]))
+		c.defString("stashPopRestages", vcsopsExprText(sc.Args[2]))
 
 		// ---- abort
 		ma, err := c.file("go/libraries/doltcore/merge/action.go")
@@ -246,7 +246,7 @@ func init() {
 			}
 			if sel, ok := ce.Fun.(*ast.SelectorExpr); ok && len(ce.Args) == 1 {
 				if sel.Sel.Name == "WithStagedRoot" && abortStaged == "" {
-					abortStaged = exprText(ce.Args[0])
+					abortStaged = vcsopsExprText(ce.Args[0])
 				}
 				if sel.Sel.Name == "WithWorkingRoot" && abortWorking == "" {
 					abortWorking = traceExpr(abfn, ce.Args[0], ce.Pos(), 0)
@@ -293,13 +293,13 @@ func init() {
 			}
 			sets := false
 			for _, s := range cc.Body {
-				if as, ok := s.(*ast.AssignStmt); ok && len(as.Lhs) == 1 && exprText(as.Lhs[0]) == "options.Amend" && exprText(as.Rhs[0]) == "true" {
+				if as, ok := s.(*ast.AssignStmt); ok && len(as.Lhs) == 1 && vcsopsExprText(as.Lhs[0]) == "options.Amend" && vcsopsExprText(as.Rhs[0]) == "true" {
 					sets = true
 				}
 			}
 			if sets {
 				for _, e := range cc.List {
-					amend = append(amend, exprText(e))
+					amend = append(amend, vcsopsExprText(e))
 				}
 			}
 			return true
@@ -345,7 +345,7 @@ func init() {
 					}
 				}
 				if k.Name == "Function" {
-					fnn = exprText(kv.Value)
+					fnn = vcsopsExprText(kv.Value)
 				}
 			}
 			if want[name] && fnn != "" {
@@ -372,7 +372,7 @@ func init() {
 		if mu == nil || len(mu.Args) != 4 {
 			return fmt.Errorf("resetHardTables: MoveUntrackedTables call not found")
 		}
-		c.defStringList("resetHardMoveUntrackedArgs", []string{exprText(mu.Args[1]), exprText(mu.Args[2]), exprText(mu.Args[3])})
+		c.defStringList("resetHardMoveUntrackedArgs", []string{vcsopsExprText(mu.Args[1]), vcsopsExprText(mu.Args[2]), vcsopsExprText(mu.Args[3])})
 		// the returned Roots literal
 		var retRoots []string
 		ast.Inspect(rhfn.Body, func(n ast.Node) bool {
@@ -383,7 +383,7 @@ func init() {
 			retRoots = nil
 			for _, el := range cl.Elts {
 				if kv, ok := el.(*ast.KeyValueExpr); ok {
-					retRoots = append(retRoots, exprText(kv.Key)+"="+exprText(kv.Value))
+					retRoots = append(retRoots, vcsopsExprText(kv.Key)+"="+vcsopsExprText(kv.Value))
 				}
 			}
 			return true
@@ -404,7 +404,7 @@ func init() {
 			if !ok {
 				return true
 			}
-			if be, ok := is.Cond.(*ast.BinaryExpr); ok && be.Op == token.EQL && exprText(be.Y) == "emptyHash" && len(is.Body.List) == 1 {
+			if be, ok := is.Cond.(*ast.BinaryExpr); ok && be.Op == token.EQL && vcsopsExprText(be.Y) == "emptyHash" && len(is.Body.List) == 1 {
 				if bs, ok := is.Body.List[0].(*ast.BranchStmt); ok && bs.Tok == token.CONTINUE {
 					skips = true
 				}
@@ -476,5 +476,5 @@ func exprText2(e ast.Expr) string {
 	case *ast.UnaryExpr:
 		return v.Op.String() + exprText2(v.X)
 	}
-	return exprText(e)
+	return vcsopsExprText(e)
 }
